@@ -10,6 +10,7 @@
 -/
 import PopsModel.Lemmas.Kern
 import PopsModel.Lemmas.KernRadial
+import PopsModel.Lemmas.KernElig
 import PopsModel.Analysis.KernReal
 namespace Pops
 open Real
@@ -245,6 +246,73 @@ example : mixUsesAnthropogenic true true (3 / 4) (3 / 4) = true ∧ mixUsesAnthr
     cases h : mixUsesAnthropogenic true true (1 / 2) (3 / 4) with
     | false => rfl
     | true => exact absurd ((mix_iff _ _ _ _).mp h).2.2 (by grind)⟩
+
+/-! ### Eligibility and supported kernel types -/
+
+/-- **Eligibility.** Only the network kernel restricts source cells (to cells holding a node); every
+    other class is eligible everywhere. The switch kernel forwards the question to the kernel it
+    selects, whatever the stochasticity flag (so for the network selector it is the network kernel's
+    answer for the same cell, and `true` for every other selector). A built kernel is eligible
+    exactly where its class is. And the natural / anthropogenic mix uses the anthropogenic kernel
+    only at eligible source cells: at a cell that is not eligible the natural kernel is used whatever
+    the draw, the enable flag and the natural share. -/
+theorem C13_eligibility :
+    (∀ (c : KernelClass) (hasNode : Bool), classEligible c hasNode = (c ≠ .network || hasNode)) ∧
+    (∀ (t : DispersalKernelType) (stochastic hasNode : Bool),
+        switchEligible t hasNode = classEligible (switchSelect t stochastic).cls hasNode) ∧
+    (∀ (t : DispersalKernelType) (hasNode : Bool),
+        switchEligible t hasNode = (t ≠ .network || hasNode)) ∧
+    (∀ (d : KernelDesc) (hasNode : Bool), d.eligible hasNode = classEligible d.cls hasNode) ∧
+    (∀ (enabled eligible : Bool) (u p : Rat),
+        mixUsesAnthropogenic enabled eligible u p = true → eligible = true) ∧
+    (∀ (enabled : Bool) (u p : Rat),
+        mixUsesAnthropogenic enabled false u p = false ∧ mixNatural enabled false u p = true) := by
+  refine ⟨?_, ?_, ?_, fun _ _ => rfl, ?_, ?_⟩
+  · intro c hasNode; cases c <;> cases hasNode <;> rfl
+  · intro t stochastic hasNode
+    cases t <;> cases stochastic <;> cases hasNode <;> rfl
+  · intro t hasNode; cases t <;> cases hasNode <;> rfl
+  · intro enabled eligible u p h
+    exact ((mix_iff enabled eligible u p).mp h).2.1
+  · intro enabled u p
+    cases enabled <;> simp [mixUsesAnthropogenic, mixNatural]
+
+/-- A network selector with stochasticity on or off, at a cell without a node: not eligible; any
+    other selector: eligible; the mix at a cell without a node stays natural even for `u = 1 - ε`. -/
+example : switchEligible .network false = false ∧ switchEligible .network true = true ∧
+    switchEligible .cauchy false = true ∧
+    mixUsesAnthropogenic true false (1023 / 1024) (1 / 4) = false ∧
+    mixUsesAnthropogenic true true (1023 / 1024) (1 / 4) = true :=
+  ⟨rfl, rfl, rfl, (C13_eligibility.2.2.2.2.2 true _ _).1,
+   (mix_iff _ _ _ _).mpr ⟨rfl, rfl, by norm_num⟩⟩
+
+/-- **Supported types.** `supports_kernel` of each concrete class is true exactly for the kernel
+    types its call operator serves (`ServesType`: uniform, neighbour and network implement the type
+    of their name, radial and deterministic the ten laws); the switch kernel supports uniform,
+    neighbour and the ten laws, the mix what either of its classes supports. Consequently the kernel a
+    factory builds for a name supports the type that name maps to, for every name except `none` and
+    `network` as a natural kernel (`builtMustSupport`). -/
+theorem C13_supports_kernel :
+    (∀ (c : KernelClass) (t : DispersalKernelType), classSupports c t = true ↔ ServesType c t) ∧
+    (∀ (c : KernelConfig) (t : DispersalKernelType) (d : KernelDesc),
+        kernelTypeFromString c.naturalKernelType = .ok t → createNaturalKernel c = .ok d →
+        builtMustSupport false t = true → classSupports d.cls t = true) ∧
+    (∀ (c : KernelConfig) (t : DispersalKernelType) (d : KernelDesc),
+        kernelTypeFromString c.anthroKernelType = .ok t → createAnthroKernel c = .ok d →
+        builtMustSupport true t = true → classSupports d.cls t = true) := by
+  refine ⟨?_, ?_, ?_⟩
+  · intro c t
+    cases c <;> cases t <;> simp [classSupports, ServesType, radialSupports, switchSupports, DispersalKernelType.law?]
+  · intro c t d ht hd hm
+    rw [createNatural_cls c t d ht hd]
+    cases t <;> simp [builtMustSupport] at hm <;> cases c.dispersalStochasticity <;> rfl
+  · intro c t d ht hd hm
+    rw [createAnthro_cls c t d ht hd]
+    cases t <;> simp [builtMustSupport] at hm <;> cases c.dispersalStochasticity <;> rfl
+
+example : classSupports .network .network = true ∧ classSupports .network .cauchy = false ∧
+    classSupports .radial .weibull = true ∧ classSupports .radial .uniform = false ∧
+    classSupports .switch .network = false := ⟨rfl, rfl, rfl, rfl, rfl⟩
 
 /-! ### Names -/
 
